@@ -750,33 +750,58 @@ class C19(Prop):
     id = "C19"
     anchored = ["src/pewlib/" + m.split("pewlib.")[1].replace(".", "/") + ".py" for m in T.INVENTORY_MODULES]
     cases = {"quick": 500, "thorough": 6000}
-    rule = ("one targeted case per inventoried public function/method (static obligation for every parameter + one dynamic call), "
-            "24 (thorough: 149) more for every function with a pair in UNPROVED_STATIC (dynamic-only pairs), "
-            "then random (function, argument seed) pairs; non-trivial = the call actually ran pewlib code with at least one "
-            "array/list/dict/object argument; distinct by (function, argument seed)")
-    trusted = ["harness/effects/translate.py (Python AST -> effect IR) and its tables of NumPy/stdlib calls returning fresh memory, "
-               "views, or writing an argument; `.copy()` is assumed to be ndarray.copy; duck-typed method calls are resolved by name "
-               "over pewlib's own classes; a parameter and everything reachable from it is one region (own/reach split)",
-               "translator, typing: annotations are trusted where they name an ndarray/scalar/str, a builtin container, an "
-               "ElementTree Element/ElementTree, a pewlib class (parameters, results of inlined functions, `self.f = <annotated "
-               "__init__ parameter>` when nothing else in the program assigns an attribute `f`) or `list[<pewlib class>]`: method and "
-               "property lookups on such values use that class hierarchy (with subclass overrides) instead of the name tables; "
-               "objects returned by ElementTree.parse/fromstring are fresh, their find/findall/iter/iterfind/getroot return parts, "
+    rule = ("targeted: every translator regression case (harness/effects/tests: synthetic source -> real translator -> real Lean "
+            "analysis, plus a real run of the synthetic function); one case per inventoried public function/method (static "
+            "obligation for every parameter + one dynamic call); 4 (thorough: 24) calls with overlapping / identical array "
+            "arguments for every function with two ndarray parameters; 24 (thorough: 149) more for every function with a pair in "
+            "UNPROVED_STATIC (dynamic-only pairs); then random (function, argument seed) pairs, 15% of those that can with "
+            "overlapping arguments; non-trivial = the call actually ran pewlib code with at least one array/list/dict/object "
+            "argument; distinct by (function, argument seed)")
+    trusted = ["harness/effects/translate.py (Python AST -> effect IR with a heap) and its tables of NumPy/stdlib calls returning "
+               "fresh memory, views, or writing an argument (reviewed against the installed NumPy; positional `out` parameters "
+               "are read from the installed library's ufunc arity / signatures); FAIL-CLOSED RULE: whatever is not in a table is "
+               "an unknown call (everything reachable from its arguments and from the callee object may be written, stored into "
+               "each other, returned), a construct that cannot be expressed (global/nonlocal, reflection, class definitions in "
+               "functions, special methods of pewlib classes other than __init__/__str__/__repr__/__format__/__getitem__/"
+               "__setitem__) makes the whole function unknown, and an IR variable the translator would read before binding it "
+               "is bound to `unknown`; duck-typed method calls are resolved by name over pewlib's own classes and the builtin / "
+               "NumPy method tables; a parameter and everything reachable from it when the call starts is one region",
+               "translator, typing: annotations of parameters are trusted where they name an ndarray/scalar/str/Path (`arr`: holds "
+               "no references, so a subscript store keeps none and `.copy()` is a deep copy), a builtin container (of such), an "
+               "ElementTree Element/ElementTree, a pewlib class or `list[<pewlib class>]`; every dynamic call asserts them on the "
+               "arguments it builds (isinstance, non-object dtype, item types).  Attributes of pewlib objects are typed plain "
+               "(or list of plain) when EVERY store site of that attribute that can affect the class stores such a value "
+               "(greatest fixpoint over the store sites, each judged by the translator in its own function; "
+               "evidence: fields_typed_plain); sound for objects that only pewlib's code builds and modifies, asserted on every "
+               "pewlib object reachable from the arguments.  Method / property lookups on typed values use that class hierarchy "
+               "(with subclass overrides; `cls(...)` in a classmethod is a branch over the subclasses' constructors).  "
+               "ElementTree.parse/fromstring results are fresh, find/findall/iter/iterfind/getroot return parts, "
                "findtext/itertext/get/keys/items/tag/text/tail return str; compiled-pattern match/search/fullmatch are pure; "
-               "Executor.submit(f, *a) is the call f(*a); sorted/min/max/list.sort(key=f) and map/filter(f, xs) apply f to the items "
-               "(lambdas are translated in place with their parameter bound to the items, anywhere else with an unknown argument; "
-               "their free variables are read when the lambda is created); a name bound only to pewlib functions, or a pewlib function "
-               "passed by name to an inlined callee, is called as a branch over those functions; a call of any other function-valued "
-               "parameter is an unknown call; str()/f-strings run __str__ only for values of a known pewlib class",
-               "the theorems are about the IR semantics (Pew.Effects.Exec); fidelity of the translation is validated only by the "
-               "dynamic snapshot run: every observed write / memory sharing must have been predicted by the analysis"]
+               "Executor.submit(f, *a) / Executor.map(f, xs) call f; sorted/min/max/list.sort(key=f), map/filter(f, xs) apply f to "
+               "the items; a name bound only to pewlib functions / local functions / lambdas (or such a function passed by name "
+               "to an inlined callee) is called as a branch over them; every other function value is an object holding its "
+               "free variables and calling it is an unknown call; str()/f-strings run the __str__/__repr__/__format__ of "
+               "pewlib classes (by type, else by name), not followed further inside a __str__",
+               "the theorems are about the IR semantics (Pew.Effects.Exec) from the start state `Start`: the parameters are "
+               "distinct regions with no references between them, nothing allocated, empty heap (module-level state left by "
+               "earlier calls is not part of it).  Calls that `Start` excludes (the same array passed twice, overlapping "
+               "views) are made by the dynamic half (feature overlapping-array-arguments), where the property itself is still "
+               "checked and a prediction for one member of an overlap group counts for the group.  Fidelity of the "
+               "translation is validated by the regression cases and by the dynamic snapshot run: every observed write / "
+               "sharing must have been predicted by the analysis"]
     assumptions = ["writes performed inside C extensions on buffers the table calls fresh are not visible",
                    "UNPROVED_STATIC in harness/c19.py lists the (function, parameter) pairs that rest on the dynamic calls alone "
                    "(user callbacks, an open file handle's position, results holding the caller's immutable Path/tuple objects, "
                    "boolean-mask indexing); they are not counted as static obligations and permit nothing at run time",
                    "pewlib.io.csv.load is called with an in-process stand-in for ProcessPoolExecutor, so that what a reader task "
                    "does to its arguments is observable",
-                   "ALLOWED_WRITES / ALIAS_BASELINE in harness/c19.py are the documented mutators and the reviewed alias baseline"]
+                   "ALLOWED_WRITES in harness/c19.py (evidence: allowed_writes, one reason per entry): the documented mutators of "
+                   "the property text, and six object-state setters whose static may-write(self) is accepted while the dynamic "
+                   "half still requires every array/list/dict reachable from their arguments to be unchanged (identity-based "
+                   "content snapshots); ALIAS_BASELINE is the reviewed alias baseline",
+                   "mappings are plain dicts (no __missing__ that inserts on lookup); reading from an open file is not a write "
+                   "(its position is not an array, list or dict); context managers do not swallow exceptions; callbacks and "
+                   "unresolved callees do not replace attributes of pewlib objects by values of another type"]
 
     def __init__(self):
         self._inv = None
